@@ -54,13 +54,15 @@ const anyStatus = model.Status(-1)
 
 // docScope bounds the document languages.
 type docScope struct {
-	Nodes     int // max nodes of tree documents
-	UBJTypes  int // element types used for typed UBJSON containers
-	JSONTok   int // max tokens of JSON structure sequences
-	JSONAtoms int // max atoms per JSON string literal
-	NumStride int // take every NumStride-th number literal
-	Ctx       int // number of contexts scalars are embedded in (0 = all)
-	ScStride  int // take every ScStride-th scalar (0/1 = all)
+	Nodes     int  // max nodes of tree documents
+	UBJNodes  int  // max nodes of UBJSON tree documents (0: Nodes)
+	UBJDeep   bool // add the 5-node UBJSON trees over a reduced type alphabet
+	UBJTypes  int  // element types used for typed UBJSON containers
+	JSONTok   int  // max tokens of JSON structure sequences
+	JSONAtoms int  // max atoms per JSON string literal
+	NumStride int  // take every NumStride-th number literal
+	Ctx       int  // number of contexts scalars are embedded in (0 = all)
+	ScStride  int  // take every ScStride-th scalar (0/1 = all)
 }
 
 func strideOf[T any](all []T, k int) []T {
@@ -82,7 +84,7 @@ func (sc docScope) ctx(all int) int {
 }
 
 func conformScope(tier string) docScope {
-	return docScope{Nodes: tierPick(tier, 4, 5), UBJTypes: tierPick(tier, 8, 15), JSONTok: tierPick(tier, 6, 8), JSONAtoms: tierPick(tier, 2, 3), NumStride: 1}
+	return docScope{Nodes: tierPick(tier, 4, 5), UBJNodes: 4, UBJTypes: tierPick(tier, 8, 15), JSONTok: tierPick(tier, 6, 8), JSONAtoms: tierPick(tier, 2, 3), NumStride: 1, UBJDeep: tier == "thorough"}
 }
 
 // cborDocFamilies: the CBOR document language of C05 (DESIGN §5).
@@ -166,6 +168,9 @@ func cborDocFamilies(sc docScope, run docBody) []engine.Family {
 func ubjDocFamilies(sc docScope, run docBody) []engine.Family {
 	scalars := strideOf(gen.UBJScalars(), sc.ScStride)
 	maxNodes := sc.Nodes
+	if sc.UBJNodes > 0 {
+		maxNodes = sc.UBJNodes
+	}
 	nTypes := sc.UBJTypes
 	return []engine.Family{
 		{Name: "ubj-scalars", Arity: []int{gen.NumUBJContexts}, Body: func(x *engine.Exec) {
@@ -180,6 +185,17 @@ func ubjDocFamilies(sc docScope, run docBody) []engine.Family {
 				cl = "tree:typed"
 			}
 			mkDoc(x, codecUBJSON, "ubj-trees", cl, doc, model.Complete, run)
+		}},
+		{Name: "ubj-trees-5", Arity: []int{gen.UBJTreeRootArity(), 3, 3}, Body: func(x *engine.Exec) {
+			if !sc.UBJDeep {
+				return
+			}
+			doc := gen.UBJTree(x, 5, 3) // one more node over the three simplest element types
+			cl := "tree"
+			if strings.Contains(string(doc), "$") {
+				cl = "tree:typed"
+			}
+			mkDoc(x, codecUBJSON, "ubj-trees-5", cl, doc, model.Complete, run)
 		}},
 		{Name: "ubj-typed-siblings", Body: func(x *engine.Exec) {
 			// a typed container followed by siblings of another type, at two nesting levels
